@@ -78,6 +78,7 @@ func (e *Engine) generate(prop string, only string) *runResult {
 		} else if prop != "" && !contractMentions(c, prop) {
 			continue
 		} else if c.ThoroughOnly && e.tier != "thorough" {
+			e.assumptionsUsed["contract of "+c.Name+" is discharged in the thorough tier only (its proof needs more than the quick per-obligation budget); in this quick run it is assumed at its call sites"] = true
 			continue
 		}
 		names = append(names, key)
